@@ -119,7 +119,7 @@ class TU:
             n['_cls'] = owner
             qn = (owner + '::' if owner else '') + n.get('name', '')
             n['_qn'] = qn
-            if not n.get('isImplicit'):
+            if not n.get('isImplicit') or (k == 'CXXDestructorDecl' and any(c.get('kind') == 'CompoundStmt' for c in n.get('inner', []))):
                 self.funcs.setdefault(qn, []).append(n)
         if k == 'VarDecl':
             n['_cls'] = cls
@@ -251,6 +251,9 @@ class Emitter:
         self.loops = 0; self.rules = {}; self.calls = set(); self.globals_used = set()
         self.cur = None; self.tmpn = 0; self.inserts = {}
         self.ret_slot = None; self.ret_ref = False
+        # R17 (opt-in per proof, @define VERIF_SCOPE_DTORS): destructor calls for named block-scope locals of class type
+        self.scope_dtors = '-DVERIF_SCOPE_DTORS' in getattr(tu, 'cmd', [])
+        self.scopes = []
 
     def fire(self, r): self.rules[r] = self.rules.get(r, 0) + 1
     def kids(self, n): return [c for c in n.get('inner', []) if c.get('kind') != 'FullComment']
@@ -276,13 +279,46 @@ class Emitter:
         return self.line(n, ind) + ind + self.e(n) + ';\n'
 
     def s_CompoundStmt(self, n, ind):
-        return ind + '{\n' + ''.join(self.s(c, ind + '  ') for c in self.kids(n)) + ind + '}\n'
+        return self.block(n, ind)
 
-    def body(self, n, ind, loop=None):
+    def body(self, n, ind, loop=None, boundary=None):
         mark = (ind + '  /*@BODYBEGIN %d@*/\n' % loop) if loop is not None else ''
-        if n['kind'] == 'CompoundStmt':
-            return ind + '{\n' + mark + ''.join(self.s(c, ind + '  ') for c in self.kids(n)) + ind + '}\n'
-        return ind + '{\n' + mark + self.s(n, ind + '  ') + ind + '}\n'
+        return self.block(n, ind, mark, 'loop' if loop is not None else boundary)
+
+    def block(self, n, ind, mark='', boundary=None):
+        self.scopes.append({'locals': [], 'boundary': boundary})
+        stmts = self.kids(n) if n['kind'] == 'CompoundStmt' else [n]
+        out = ''.join(self.s(c, ind + '  ') for c in stmts)
+        sc = self.scopes.pop()
+        if sc['locals'] and not (stmts and stmts[-1]['kind'] in ('ReturnStmt', 'BreakStmt', 'ContinueStmt')):
+            out += self.dtor_calls([sc], ind + '  ')
+        return ind + '{\n' + mark + out + ind + '}\n'
+
+    def has_dtor(self, cq):
+        r = self.tu.records.get(cq)
+        return bool(r and r.get('definitionData', {}).get('dtor', {}).get('nonTrivial'))
+
+    def dtor_name(self, cq):
+        for f in self.tu.funcs.get(cq + '::~' + cq.split('__')[-1], []):
+            if f['kind'] == 'CXXDestructorDecl':
+                nm = self.namer.cname(f); self.calls.add(nm); return nm
+        raise Unsupported('no destructor declaration for ' + cq)
+
+    def dtor_calls(self, scopes, ind):
+        out = ''
+        for sc in scopes:
+            for nm, cq in reversed(sc['locals']):
+                self.fire('R17 scope exit -> destructor call of block-scope local')
+                out += ind + '%s(&%s);\n' % (self.dtor_name(cq), nm)
+        return out
+
+    def live_scopes(self, upto=None):
+        """innermost first; up to and including the nearest scope with one of the boundaries in upto (all when None)"""
+        out = []
+        for sc in reversed(self.scopes):
+            out.append(sc)
+            if upto and sc['boundary'] in upto: break
+        return out
 
     def s_DeclStmt(self, n, ind):
         out = self.line(n, ind)
@@ -298,9 +334,13 @@ class Emitter:
                 self.fire('R9 class local -> ctor call')
                 nm = v['name']
                 if not init:
+                    if self.scope_dtors and self.has_dtor(cq): raise Unsupported('uninitialised class local with destructor')
                     out += ind + '%sstruct %s %s;\n' % (st, cq, nm); continue
                 c = self.strip_wrappers(init[0])
                 out += ind + '%sstruct %s %s; %s;\n' % (st, cq, nm, self.construct_into('&' + nm, cq, c))
+                if self.scope_dtors and not st and self.has_dtor(cq):
+                    if not self.scopes: raise Unsupported('class local with destructor outside a block')
+                    self.scopes[-1]['locals'].append((nm, cq))
                 continue
             if q.rstrip().endswith('&'):
                 self.fire('R4 reference local -> pointer')
@@ -349,6 +389,18 @@ class Emitter:
 
     def s_ReturnStmt(self, n, ind):
         c = self.kids(n)
+        live = [sc for sc in self.live_scopes() if sc['locals']] if self.scope_dtors else []
+        if live:
+            d = self.dtor_calls(live, ind + '  ')
+            if not c: return self.line(n, ind) + ind + '{\n' + d + ind + '  return;\n' + ind + '}\n'
+            if self.ret_slot:
+                self.fire('R11 by-value class return -> out-parameter')
+                x = self.strip_wrappers(c[0])
+                return self.line(n, ind) + ind + '{\n' + ind + '  %s;\n' % self.construct_into(self.ret_slot, self.ret_class, x) + d + ind + '  return %s;\n' % self.ret_slot + ind + '}\n'
+            if self.ret_ref:
+                self.fire('R4 reference return -> address')
+                return self.line(n, ind) + ind + '{\n' + ind + '  void *verif_rv = (void *)' + self.addr(c[0]) + ';\n' + d + ind + '  return verif_rv;\n' + ind + '}\n'
+            return self.line(n, ind) + ind + '{\n' + ind + '  ' + self.decl(c[0]['type'], 'verif_rv') + ' = ' + self.e(c[0]) + ';\n' + d + ind + '  return verif_rv;\n' + ind + '}\n'
         if not c: return self.line(n, ind) + ind + 'return;\n'
         if self.ret_slot:
             self.fire('R11 by-value class return -> out-parameter')
@@ -360,12 +412,16 @@ class Emitter:
         return self.line(n, ind) + ind + 'return ' + self.e(c[0]) + ';\n'
 
     def s_NullStmt(self, n, ind): return ind + ';\n'
-    def s_BreakStmt(self, n, ind): return ind + 'break;\n'
-    def s_ContinueStmt(self, n, ind): return ind + 'continue;\n'
+    def s_BreakStmt(self, n, ind):
+        live = [sc for sc in self.live_scopes(('loop', 'switch')) if sc['locals']] if self.scope_dtors else []
+        return (self.dtor_calls(live, ind) if live else '') + ind + 'break;\n'
+    def s_ContinueStmt(self, n, ind):
+        live = [sc for sc in self.live_scopes(('loop',)) if sc['locals']] if self.scope_dtors else []
+        return (self.dtor_calls(live, ind) if live else '') + ind + 'continue;\n'
 
     def s_SwitchStmt(self, n, ind):
         c = self.kids(n)
-        return self.line(n, ind) + ind + 'switch (' + self.e(c[0]) + ')\n' + self.body(c[1], ind)
+        return self.line(n, ind) + ind + 'switch (' + self.e(c[0]) + ')\n' + self.body(c[1], ind, boundary='switch')
     def s_CaseStmt(self, n, ind):
         c = self.kids(n)
         return ind + 'case ' + self.e(c[0]) + ':\n' + self.s(c[-1], ind + '  ')
@@ -780,10 +836,37 @@ def emit_function(tu, namer, prelude, f):
         txt0 = re.sub(r'\breturn;', 'return self;', txt0)
         txt = txt0
     else:
+        if f['kind'] == 'CXXDestructorDecl' and em.scope_dtors:
+            epi = dtor_epilogue(em, f)
+            if epi:
+                if re.search(r'\breturn\b', tail): raise Unsupported('early return in a destructor with member destructors')
+                j = tail.rindex('}')
+                tail = tail[:j] + epi + tail[j:]
         txt = txt[:i] + '/*@ENTRY@*/\n' + pre + tail
     fl, ln = tu.line_of(f)
     return dict(cname=cname, proto=proto, text=proto + '\n/*@CONTRACT@*/\n' + txt, rules=em.rules, loops=em.loops,
                 calls=em.calls, globals=em.globals_used, file=fl, line=ln, srchash=tu.source_range_hash(f))
+
+
+def dtor_epilogue(em, f):
+    """R17: after a destructor's body, the destructors of the class-type members (reverse declaration order), then of the bases"""
+    rec = em.tu.records.get(f.get('_cls'))
+    if rec is None: raise Unsupported('destructor of unknown record')
+    out = ''
+    flds = [c for c in rec.get('inner', []) if c.get('kind') == 'FieldDecl']
+    for fd in reversed(flds):
+        q = fd['type']['qualType']
+        cq = em.class_of(fd['type'])
+        if cq and '*' not in q and '&' not in q and em.has_dtor(cq):
+            if '[' in q: raise Unsupported('array member with destructor')
+            em.fire('R17 member destructor call')
+            out += '  %s(&self->%s);\n' % (em.dtor_name(cq), fd['name'])
+    for b in reversed(rec.get('bases', [])):
+        cq = em.class_of(b['type'])
+        if cq and em.has_dtor(cq):
+            em.fire('R17 base destructor call')
+            out += '  %s((struct %s *)self);\n' % (em.dtor_name(cq), cq)
+    return out
 
 
 def em_ctor_init(em, f, ini):
